@@ -10,6 +10,7 @@ mod dbrun;
 mod gen_types;
 mod rng;
 mod sexp;
+mod watch;
 #[cfg(agdb_verif)]
 mod walrun;
 
@@ -103,6 +104,8 @@ fn main() {
                 maintenance: arg(&args, "--maintenance", "0") == "1",
                 dir: out.clone(),
             };
+            // C19: per-step watchdog (exit code 3 + oracle line `timeout ...` when one step exceeds the limit)
+            watch::start(arg(&args, "--watchdog-ms", "0").parse().unwrap(), format!("{}/oracle.txt", out));
             let mut o = dbrun::Out::new();
             let mut r = rng::Rng::new(seed);
             for h in 0..n {
